@@ -146,7 +146,14 @@ func (env *SpecEnv) eval(e SExpr) Val {
 		if v.T == nil {
 			env.fail("deref of untyped value")
 		}
-		return Val{Addr: v.S, T: deref(v.T), Sort: g.sortOf(deref(v.T))}
+		v = env.force(v)
+		dt := deref(v.T)
+		if g.structInfoOf(dt) == nil {
+			r := env.a.loadAt(env.st, v.S, dt)
+			env.typedFact(r)
+			return r
+		}
+		return Val{Addr: v.S, T: dt, Sort: g.sortOf(dt)}
 	case SBin:
 		return env.bin(x)
 	case SIte:
